@@ -22,6 +22,11 @@ func (group *Group) startRecordMpegtsIfNeeded(nowUnix int64) {
 	}
 
 	// 构造文件名
+	if !isSafeStreamNameForFile(group.streamName) {
+		Log.Errorf("[%s] stream name invalid for file path, record mpegts disabled for this stream. streamName=%s", group.UniqueKey, group.streamName)
+		return
+	}
+
 	filename := fmt.Sprintf("%s-%d.ts", group.streamName, nowUnix)
 	filenameWithPath := filepath.Join(group.config.RecordConfig.MpegtsOutPath, filename)
 
